@@ -59,11 +59,11 @@ def run_stim(circ):
             'ndet': int(c.num_detectors), 'nobs': int(c.num_observables), 'dem_ok': dem, 'text': text}
 
 
-def one(desc, dname, d, data_bits, anc_bits, cycles, ctor, want_text=False):
+def one(desc, dname, d, data_bits, anc_bits, cycles, ctor, want_text=False, refocus=None):
     init = InitialStateContainer.from_ordered_list([E[b] for b in data_bits], [E[b] for b in anc_bits] if anc_bits is not None else None)
     rows = []
     base = {'t': 'repcode', 'desc': dname, 'd': d, 'data': list(data_bits), 'anc': list(anc_bits) if anc_bits is not None else [], 'anc_given': anc_bits is not None,
-            'cycles': cycles, 'refocus': bool(desc.contains_qubit_refocusing), 'ctor': ctor}
+            'cycles': cycles, 'refocus': bool(desc.contains_qubit_refocusing) if refocus is None else bool(refocus), 'ctor': ctor}
     base.update(describe(desc))
     f = construct_repetition_code_circuit if ctor == 'main' else construct_repetition_code_circuit_simplified
     texts = {}
@@ -93,7 +93,7 @@ def one(desc, dname, d, data_bits, anc_bits, cycles, ctor, want_text=False):
 def chain_descs(dmax):
     for d in range(2, dmax + 1):
         for refocus in (True, False):
-            yield RepetitionCodeDescription.from_chain(length=2 * d - 1, qubit_refocusing=refocus), 'chain%d%s' % (d, '' if refocus else '-norefocus'), d
+            yield RepetitionCodeDescription.from_chain(length=2 * d - 1, qubit_refocusing=refocus), 'chain%d%s' % (d, '' if refocus else '-norefocus'), d, refocus
 
 
 def chain_order(lay):
@@ -127,13 +127,13 @@ def layout_descs(maxlen):
                     if sub[0] in lay.data_qubit_ids and sub[-1] in lay.data_qubit_ids:
                         nd = sum(1 for q in sub if q in lay.data_qubit_ids)
                         for refocus in (True, False):
-                            yield RepetitionCodeDescription.from_connectivity(involved_qubit_ids=sub, connectivity=lay, qubit_refocusing=refocus), '%s:%s%s' % (lay.__class__.__name__, '-'.join(q.id for q in sub), '' if refocus else ':norefocus'), nd
+                            yield RepetitionCodeDescription.from_connectivity(involved_qubit_ids=sub, connectivity=lay, qubit_refocusing=refocus), '%s:%s%s' % (lay.__class__.__name__, '-'.join(q.id for q in sub), '' if refocus else ':norefocus'), nd, refocus
 
 
 def main(out, dmax, cmax, nlayout, seed, anc_states):
     rnd = random.Random(seed)
     rows = []
-    for desc, name, d in chain_descs(dmax):
+    for desc, name, d, rf in chain_descs(dmax):
         na = d - 1
         for cycles in range(0, cmax + 1):
             states = list(itertools.product((0, 1), repeat=d)) if d <= 3 else [tuple(rnd.randint(0, 1) for _ in range(d)) for _ in range(4)]
@@ -142,15 +142,15 @@ def main(out, dmax, cmax, nlayout, seed, anc_states):
                 if anc_states and name.endswith(str(d)):
                     ancs += [tuple(rnd.randint(0, 1) for _ in range(na)) for _ in range(2)] + [tuple([1] * na)]
                 for ab in ancs:
-                    rows += one(desc, name, d, bits, ab, cycles, 'main')
+                    rows += one(desc, name, d, bits, ab, cycles, 'main', refocus=rf)
             if name.endswith(str(d)) and d <= 3:
                 rows += one(desc, name, d, states[-1], None, cycles, 'simplified')
     lds = list(layout_descs(5))
     rnd.shuffle(lds)
-    for desc, name, nd in lds[:nlayout]:
+    for desc, name, nd, rf in lds[:nlayout]:
         for cycles in (0, 1, 2, rnd.randint(3, max(3, cmax))):
             bits = tuple(rnd.randint(0, 1) for _ in range(nd))
-            rows += one(desc, name, nd, bits, None, cycles, 'main')
+            rows += one(desc, name, nd, bits, None, cycles, 'main', refocus=rf)
     json.dump(rows, open(out, 'w'))
     print(len(rows))
 
